@@ -114,9 +114,11 @@ Fixpoint inl_stmt (fuel : nat) (ms : list macro_def) (c : ictx) (s : stmt) (k : 
           match inner with
           | SCtrl KReturn =>
               match i_exp c with
-              | Some _ => Err "return inside a with-block of a macro"
+              | Some x => Ok (SCons (SWith kind (subst_param e t) (SJump (end_label x))) SNil, k)
               | None => Ok (SCons (SWith kind (subst_param e t) inner) SNil, k)
               end
+          | SJump l => Ok (SCons (SWith kind (subst_param e t) (SJump (ren c l))) SNil, k)
+          | SCall l => Ok (SCons (SWith kind (subst_param e t) (SCall (ren c l))) SNil, k)
           | SOp None nm args => Ok (SCons (SWith kind (subst_param e t) (SOp None nm (subst_params e args))) SNil, k)
           | SAssign a => Ok (SCons (SWith kind (subst_param e t) (SAssign (subst_assign e a))) SNil, k)
           | _ => Ok (SCons (SWith kind (subst_param e t) inner) SNil, k)
